@@ -6,6 +6,20 @@ SPEC = {
         'AITB.POMDP.envelope_crossSum',
         'AITB.POMDP.envelope_crossSum_pruned',
         'AITB.POMDP.convex_dominance_sound',
+        'AITB.POMDP.dot_projVec',
+        'AITB.POMDP.env_projList',
+        'AITB.POMDP.env_backupAll',
+        'AITB.POMDP.alpha_backup_exact',
+        'AITB.POMDP.backup_members_le_expectimax',
+        'AITB.POMDP.incremental_pruning_exact',
+        'AITB.POMDP.obs_prob_sum',
+        'AITB.POMDP.expectimaxT_le',
+        'AITB.POMDP.rtLoop_spec',
+        'AITB.POMDP.rtSim_eq_expectimaxT',
+        'AITB.POMDP.rtbss_eq_expectimax_partial',
+        'AITB.POMDP.expectimaxT_zero',
+        'AITB.POMDP.rtbss_eq_expectimax_tau0',
+        'AITB.POMDP.rtbss_negative_maxR_counterexample',
     ],
     'harness': 'harness/c02.cpp',
     'level': 'proof',
